@@ -3,12 +3,12 @@ import PsyVerif.Model.AD
 open Proto MiniF
 
 /-! Driver of C19.  Program format (all expressions in the MiniF S-expression format):
-`stmt := (skip) | (seqs s…) | (asg aref (term…)) | (ite e s s) | (loop v lo hi st s)`,
+`stmt := (skip) | (seqs s…) | (asg aref (term…)) | (ite e s s) | (loop v lo hi st s) | (pas x e) | (sec ev cnt aref (term…))`,
 `aref := (a i j)`, `term := (neg coef aref)`.
 Operations:
-* `(adj p)` / `(adjpinned p)` / `(adjroutine (locals…) p)` → canonical printed adjoint
+* `(adj p)` / `(adjroutine (locals…) p)` → canonical printed adjoint; `(run p (bindings) (queries))` → `active:passive` values
 * `(sem p (bindings) (queries))` → values of the model semantics (passive store = active store = bindings)
-* `(safe p (bindings))` → 0/1;  `(touched p (bindings))` → list of locations
+* `(safe p (bindings))` → 0/1;  `(why p (bindings))` → reasons for `safe` being false;  `(accepted (active ids) p)` → 0/1;  `(touched p (bindings))` → list of locations
 * `(mfmatrix <MiniF stmt> (bindings) (locs))` → rows `A e_l` restricted to `locs`, MiniF.exec on
   the store `bindings + e_l` minus MiniF.exec on `bindings` (the affine part cancels) -/
 
@@ -30,6 +30,10 @@ partial def parseProg : Sexp → Option Stmt
   | .list [.atom "ite", c, t, f] => do some (.ite (← parseExpr c) (← parseProg t) (← parseProg f))
   | .list [.atom "loop", v, lo, hi, st, b] => do
       some (.loop (← v.nat?) (← parseExpr lo) (← parseExpr hi) (← parseExpr st) (← parseProg b))
+  | .list [.atom "pas", x, e] => do some (.passign (← x.nat?) (← parseExpr e))
+  | .list [.atom "sec", ev, cnt, l, .list ts] => do
+      some (.sec (← ev.nat?) (← parseExpr cnt) (← parseARef l) (← ts.mapM parseTerm))
+  | .list [.atom "sec", ev, cnt, l, .atom _] => do some (.sec (← ev.nat?) (← parseExpr cnt) (← parseARef l) [])
   | _ => none
 
 def unName : UnOp → String
@@ -59,12 +63,30 @@ where
     | .assign l ts => s!"(asg {showARef l} {showList showTerm ts})"
     | .ite c t f => s!"(ite {showExpr c} {showBlock t} {showBlock f})"
     | .loop v lo hi st b => s!"(loop {v} {showExpr lo} {showExpr hi} {showExpr st} {showBlock b})"
+    | .passign x e => s!"(pas {x} {showExpr e})"
+    | .sec ev cnt l ts => s!"(sec {ev} {showExpr cnt} {showARef l} {showList showTerm ts})"
     | s => showBlock s
+
+/-- why `safe` fails: `alias` (hidden alias), `spurious` (reversed zero-trip loop), `sec` (section
+statement not accepted by `_array_ranges_match` or not conformable) — driver-side mirror of `safe` -/
+partial def why : Stmt → Store → List String
+  | .seq a b, ρ => why a ρ ++ why b ρ
+  | .assign l ts, ρ => if noHiddenAlias l ts ρ then [] else ["alias"]
+  | .ite c t f, ρ => if eval c ρ ≠ 0 then why t ρ else why f ρ
+  | .loop v lo hi st b, ρ =>
+      (if isUnitLit st || !spurious (eval lo ρ) (eval hi ρ) (eval st ρ) then [] else ["spurious"]) ++
+      (iters (eval lo ρ) (eval hi ρ) (eval st ρ)).flatMap fun i => why b (ρ.set (v, 0, 0) i)
+  | .sec ev cnt l ts, ρ => if secOK l ts && secInj ev cnt l ts ρ then [] else ["sec"]
+  | _, _ => []
 
 def showLoc (l : Loc) : String := s!"({l.1} {l.2.1} {l.2.2})"
 
 @[noinline] def answer (σ : Store) (qs : List Loc) : String :=
   showList (fun l => toString (σ l)) qs
+
+/-- values after `run`: active arrays from the active store, everything else from the passive store -/
+@[noinline] def answer2 (r : Store × Store) (qs : List Loc) : String :=
+  showList (fun l => toString (r.2 l) ++ ":" ++ toString (r.1 l)) qs
 
 @[noinline] def row (base σ : Store) (qs : List Loc) : String :=
   showList (fun l => toString (σ l - base l)) qs
@@ -77,8 +99,6 @@ def handle (s : Sexp) : String :=
   match s with
   | .list [.atom "adj", p] =>
     match parseProg p with | none => "bad-prog" | some q => showBlock (adjoint q)
-  | .list [.atom "adjpinned", p] =>
-    match parseProg p with | none => "bad-prog" | some q => showBlock (adjointPinned q)
   | .list [.atom "adjroutine", ls, p] =>
     match parseProg p with | none => "bad-prog" | some q => showBlock (adjointRoutine ls.natList q)
   | .list [.atom "sem", p, init, qs] =>
@@ -86,10 +106,30 @@ def handle (s : Sexp) : String :=
     | none => "bad-prog"
     | some q => let ρ := storeOf (parseBindings init)
                 answer (sem q ρ ρ) (qs.items.filterMap parseLoc)
+  | .list [.atom "run", p, init, qs] =>
+    match parseProg p with
+    | none => "bad-prog"
+    | some q => let ρ := storeOf (parseBindings init)
+                answer2 (run q ρ ρ) (qs.items.filterMap parseLoc)
   | .list [.atom "safe", p, init] =>
     match parseProg p with
     | none => "bad-prog"
     | some q => if safe q (storeOf (parseBindings init)) then "1" else "0"
+  | .list [.atom "why", p, init] =>
+    match parseProg p with
+    | none => "bad-prog"
+    | some q =>
+      let ρ := storeOf (parseBindings init)
+      let w := (why q ρ).eraseDups
+      if safe q ρ != w.isEmpty then "bad-why" else showList id w
+  | .list [.atom "scoped", p] =>
+    match parseProg p with
+    | none => "bad-prog"
+    | some q => if wellScoped q && pureAD q then "1" else "0"
+  | .list [.atom "accepted", a, p] =>
+    match parseProg p with
+    | none => "bad-prog"
+    | some q => if Accepted a.natList q then "1" else "0"
   | .list [.atom "touched", p, init] =>
     match parseProg p with
     | none => "bad-prog"
